@@ -13,6 +13,7 @@ import (
 	"math/rand/v2"
 	"net/http"
 	"net/http/httptest"
+	"net/netip"
 	"path/filepath"
 	"strings"
 
@@ -102,15 +103,38 @@ func ruleJSON(r c07Rule) tailcfg.RawMessage {
 	if acts == nil {
 		acts = []string{}
 	}
-	bs, _ := json.Marshal(map[string]any{"action": acts, "secret": secs})
+	obj := map[string]any{"action": acts, "secret": secs}
+	if r.Sparse { // a grant that leaves an empty list out altogether (it must still mean "none")
+		if len(acts) == 0 {
+			delete(obj, "action")
+		}
+		if len(secs) == 0 {
+			delete(obj, "secret")
+		}
+	}
+	bs, _ := json.Marshal(obj)
 	return tailcfg.RawMessage(bs)
+}
+
+// whoisNodeName is the name the tailnet reports for the node of a whoisSpec (recorded as the principal's hostname).
+func whoisNodeName(w whoisSpec) string { return fmt.Sprintf("node-l%d-t%d.example.ts.net.", w.Login, w.Tags) }
+
+// mkWhoIsFor answers a WhoIs question about addr: the scripted answer belongs to the request's own source
+// address (ip:port) only; asked about anything else (the bare IP, another port) the tailnet knows a different
+// node there - fully authorized, so that a request attributed to it is visibly served under the wrong identity.
+func mkWhoIsFor(w whoisSpec, want, addr string) (*apitype.WhoIsResponse, error) {
+	if want != "" && addr != want {
+		decoy := whoisSpec{Login: 99, Bare: capSpec{Kind: "rules", Rules: superRules()}, HTTPS: capSpec{Kind: "absent"}}
+		return mkWhoIs(decoy)
+	}
+	return mkWhoIs(w)
 }
 
 func mkWhoIs(w whoisSpec) (*apitype.WhoIsResponse, error) {
 	if w.Fail {
 		return nil, errors.New("whois failed")
 	}
-	node := &tailcfg.Node{Name: "node.example.ts.net."}
+	node := &tailcfg.Node{Name: whoisNodeName(w), ID: tailcfg.NodeID(1 + w.Login*16 + w.Tags), StableID: tailcfg.StableNodeID(fmt.Sprintf("n-l%d-t%d", w.Login, w.Tags))}
 	if w.Tags > 0 {
 		node.Tags = []string{fmt.Sprintf("tag:t%d", w.Tags)}
 	}
@@ -147,6 +171,25 @@ func reqBody(r reqSpec) []byte {
 	}
 	switch r.BodyKind {
 	case "valid":
+		bs, _ := json.Marshal(obj)
+		return bs
+	case "sparse": // zero-valued fields left out: the decoded request is the same
+		for k, v := range obj {
+			switch x := v.(type) {
+			case uint32:
+				if x == 0 {
+					delete(obj, k)
+				}
+			case bool:
+				if !x {
+					delete(obj, k)
+				}
+			case string:
+				if x == "" {
+					delete(obj, k)
+				}
+			}
+		}
 		bs, _ := json.Marshal(obj)
 		return bs
 	case "extra":
@@ -223,11 +266,11 @@ func coqReq(r reqSpec) string {
 	if r.Hdr == "setec" {
 		h = "HSetec"
 	}
-	addrOK := r.Addr == "100.64.0.7:4242" || r.Addr == "[fd7a:115c:a1e0::1]:80"
+	addrOK := r.Addr == "100.64.0.7:4242" || r.Addr == "[fd7a:115c:a1e0::1]:80" || r.Addr == "100.64.0.7:4243"
 	w := fmt.Sprintf("(Wh %s %s %s %s %s)", coqBool(r.WhoIs.Fail), coqOptN(r.WhoIs.Tags, 1000), coqOptN(r.WhoIs.Login, 0), coqCap(r.WhoIs.Bare), coqCap(r.WhoIs.HTTPS))
 	var body string
 	switch r.BodyKind {
-	case "valid", "extra":
+	case "valid", "extra", "sparse":
 		n := coqBytes(r.Name)
 		var q string
 		switch r.Endpoint {
@@ -331,6 +374,7 @@ type httpSession struct {
 	env   *dbEnv
 	mux   *http.ServeMux
 	whois whoisSpec
+	addr  string // the source address of the request being served
 }
 
 func newHTTPSession(dir string) (*httpSession, error) {
@@ -343,7 +387,7 @@ func newHTTPSession(dir string) (*httpSession, error) {
 		DB:  env.d,
 		Mux: hs.mux,
 		WhoIs: func(ctx context.Context, addr string) (*apitype.WhoIsResponse, error) {
-			return mkWhoIs(hs.whois)
+			return mkWhoIsFor(hs.whois, hs.addr, addr)
 		},
 	})
 	if err != nil {
@@ -355,8 +399,14 @@ func newHTTPSession(dir string) (*httpSession, error) {
 func (hs *httpSession) do(r reqSpec) httpObs {
 	env := hs.env
 	hs.whois = r.WhoIs
+	hs.addr = r.Addr
 	env.sink.mu.Lock()
 	env.sink.fx = nil
+	// every record of this request must name the machine and the address it came from
+	env.sink.wantHost, env.sink.wantIP = whoisNodeName(r.WhoIs), ""
+	if ap, perr := netip.ParseAddrPort(r.Addr); perr == nil {
+		env.sink.wantIP = ap.Addr().String()
+	}
 	env.sink.failNext = r.Audit
 	env.sink.lastHash = fileHash(env.path)
 	env.sink.mu.Unlock()
@@ -385,6 +435,7 @@ func (hs *httpSession) do(r reqSpec) httpObs {
 	env.sink.noteSave()
 	o.Fx = append([]fxObs(nil), env.sink.fx...)
 	env.sink.failNext = ""
+	env.sink.wantHost, env.sink.wantIP = "", ""
 	env.sink.mu.Unlock()
 	var so stepObs
 	env.observeState(&so)
@@ -444,10 +495,63 @@ func genCap(r *rand.Rand) capSpec {
 	return capSpec{Kind: "rules", Rules: rs}
 }
 
-func genReq(r *rand.Rand, last []secDump) reqSpec {
+// genState is what a generated session remembers between requests.
+type genState struct {
+	personas []whoisSpec // nodes with a fixed identity whose grants the tailnet policy rewrites now and then
+	prev     *reqSpec    // the previous request
+	prev304  bool        // ... and whether it was answered "not changed"
+}
+
+var c08LongName = bytes.Repeat([]byte("long-hierarchical-name/"), 50) // 1150 bytes: longer than any plausible small request limit
+
+// genGrants draws the grants of a persona: one to three rules of different shapes (several actions and
+// patterns, lists of different lengths, empty lists left out of the JSON) delivered under the current or the
+// legacy capability name.
+func genGrants(r *rand.Rand) (bare, https capSpec) {
+	pats := [][]byte{[]byte("*"), []byte("a"), []byte("b"), []byte("a*"), []byte("zz"), []byte("a/b"), []byte("_internal/*")}
+	var rs []c07Rule
+	for k := 1 + r.IntN(3); k > 0; k-- {
+		rule := c07Rule{Actions: randSubset(r, allActions), Sparse: r.IntN(3) == 0}
+		for j := r.IntN(4); j > 0; j-- {
+			rule.Secrets = append(rule.Secrets, pats[r.IntN(len(pats))])
+		}
+		rs = append(rs, rule)
+	}
+	c := capSpec{Kind: "rules", Rules: rs}
+	switch r.IntN(4) {
+	case 0:
+		return capSpec{Kind: "absent"}, c // legacy name only
+	case 1:
+		return capSpec{Kind: "rules"}, c // current name present but empty: the legacy grants apply
+	}
+	return c, capSpec{Kind: "absent"}
+}
+
+func newGenState(r *rand.Rand) *genState {
+	g := &genState{}
+	for k := 0; k < 3; k++ {
+		w := whoisSpec{Login: 4 + k}
+		if k == 2 {
+			w = whoisSpec{Tags: 3}
+		}
+		w.Bare, w.HTTPS = genGrants(r)
+		g.personas = append(g.personas, w)
+	}
+	return g
+}
+
+func genReq(r *rand.Rand, last []secDump, g *genState) reqSpec {
 	eps := []string{"list", "get", "info", "put", "activate", "delete", "delete-version"}
 	rq := reqSpec{Endpoint: eps[r.IntN(len(eps))], Method: "POST", CType: "application/json", Hdr: "setec", Addr: "100.64.0.7:4242", BodyKind: "valid"}
 	rq.WhoIs = whoisSpec{Tags: 0, Login: 1 + r.IntN(3), Bare: capSpec{Kind: "rules", Rules: superRules()}, HTTPS: capSpec{Kind: "absent"}}
+	persona := -1
+	if r.IntN(3) == 0 { // one of the session's nodes; the policy that grants it rights is edited from time to time
+		persona = r.IntN(len(g.personas))
+		if r.IntN(5) == 0 {
+			g.personas[persona].Bare, g.personas[persona].HTTPS = genGrants(r)
+		}
+		rq.WhoIs = g.personas[persona]
+	}
 	// mostly-valid requests with ONE deviation, sometimes several
 	for devs := []int{0, 1, 1, 1, 2, 3}[r.IntN(6)]; devs > 0; devs-- {
 		switch r.IntN(6) {
@@ -458,18 +562,23 @@ func genReq(r *rand.Rand, last []secDump) reqSpec {
 		case 2:
 			rq.Hdr = []string{"", "other", "SETEC", "setec "}[r.IntN(4)]
 		case 3:
-			rq.WhoIs = whoisSpec{Fail: r.IntN(4) == 0, Tags: r.IntN(3), Login: r.IntN(3), Bare: genCap(r), HTTPS: genCap(r)}
+			if persona < 0 {
+				rq.WhoIs = whoisSpec{Fail: r.IntN(4) == 0, Tags: r.IntN(3), Login: r.IntN(3), Bare: genCap(r), HTTPS: genCap(r)}
+			}
 		case 4:
-			rq.BodyKind = []string{"extra", "null", "truncated", "wrongtype", "range", "empty", "nonjson", "number"}[r.IntN(8)]
+			rq.BodyKind = []string{"extra", "null", "truncated", "wrongtype", "range", "empty", "nonjson", "number", "sparse", "sparse"}[r.IntN(10)]
 		case 5:
 			if r.IntN(3) == 0 {
 				rq.Addr = []string{"garbage", "100.64.0.7", ""}[r.IntN(3)]
 			} else {
-				rq.Addr = "[fd7a:115c:a1e0::1]:80"
+				rq.Addr = []string{"[fd7a:115c:a1e0::1]:80", "100.64.0.7:4243"}[r.IntN(2)]
 			}
 		}
 	}
 	rq.Name = c08Names[r.IntN(len(c08Names))]
+	if r.IntN(50) == 0 && (rq.Endpoint == "get" || rq.Endpoint == "info") {
+		rq.Name = c08LongName // never stored: the answer is "not found" (or a denial), whatever the length
+	}
 	var cur *secDump
 	for i := range last {
 		if bytes.Equal(last[i].Name, rq.Name) {
@@ -484,6 +593,15 @@ func genReq(r *rand.Rand, last []secDump) reqSpec {
 	rq.Val = r.IntN(5)
 	if r.IntN(12) == 0 {
 		rq.Audit = "sync"
+	}
+	// the same question again, from somebody else: an answer must not outlive the caller it was given to
+	if g.prev != nil && (g.prev304 && r.IntN(2) == 0 || r.IntN(25) == 0) {
+		w := rq.WhoIs
+		if r.IntN(2) == 0 {
+			w = whoisSpec{Login: 7, Bare: capSpec{Kind: "rules", Rules: []c07Rule{{Actions: []string{"put"}, Secrets: [][]byte{[]byte("zz")}}}}, HTTPS: capSpec{Kind: "absent"}}
+		}
+		rq = *g.prev
+		rq.WhoIs, rq.Audit = w, ""
 	}
 	return rq
 }
@@ -502,10 +620,18 @@ func runHTTPSession(work string, idx int, in httpInput, r *rand.Rand, length int
 	hs.env.observeState(&pre)
 	var obs []httpObs
 	last := pre.Disk
+	var g *genState
+	if r != nil {
+		g = newGenState(r)
+	}
 	run := func(rq reqSpec) {
 		o := hs.do(rq)
 		obs = append(obs, o)
 		last = o.Disk
+		if g != nil {
+			cp := rq
+			g.prev, g.prev304 = &cp, o.Status == 304
+		}
 	}
 	if r == nil {
 		for _, rq := range in.Ops {
@@ -513,7 +639,7 @@ func runHTTPSession(work string, idx int, in httpInput, r *rand.Rand, length int
 		}
 	} else {
 		for len(in.Ops) < length {
-			rq := genReq(r, last)
+			rq := genReq(r, last, g)
 			in.Ops = append(in.Ops, rq)
 			run(rq)
 		}
